@@ -59,6 +59,31 @@ fn all_ifdata(f: &a2lfile::A2lFile) -> Vec<bool> {
     v.into_iter().map(|(_, b)| b).collect()
 }
 
+/// the IF_DATA lists of a module in the order of the Lean structure `Hosts`: flags of the blocks, or (counts) lengths
+fn host_text(m: &a2lfile::Module, counts: bool) -> String {
+    let one = |l: &Vec<a2lfile::IfData>| {
+        if counts {
+            l.len().to_string()
+        } else if l.is_empty() {
+            "e".to_string()
+        } else {
+            l.iter().map(|i| if i.ifdata_valid { '1' } else { '0' }).collect()
+        }
+    };
+    let mut groups: Vec<Vec<String>> = vec![vec![one(&m.if_data)]];
+    groups.push(m.mod_par.as_ref().map_or(vec![], |p| p.memory_layout.iter().map(|x| one(&x.if_data)).collect()));
+    groups.push(m.mod_par.as_ref().map_or(vec![], |p| p.memory_segment.iter().map(|x| one(&x.if_data)).collect()));
+    groups.push(m.axis_pts.iter().map(|x| one(&x.if_data)).collect());
+    groups.push(m.blob.iter().map(|x| one(&x.if_data)).collect());
+    groups.push(m.characteristic.iter().map(|x| one(&x.if_data)).collect());
+    groups.push(m.frame.iter().map(|x| one(&x.if_data)).collect());
+    groups.push(m.function.iter().map(|x| one(&x.if_data)).collect());
+    groups.push(m.group.iter().map(|x| one(&x.if_data)).collect());
+    groups.push(m.instance.iter().map(|x| one(&x.if_data)).collect());
+    groups.push(m.measurement.iter().map(|x| one(&x.if_data)).collect());
+    groups.iter().map(|g| if g.is_empty() { "-".to_string() } else { g.join(";") }).collect::<Vec<_>>().join("|")
+}
+
 fn load_spec(text: &str, spec: Option<String>, strict: bool) -> Loaded {
     match catch(|| a2lfile::load_from_string(text, spec, strict)) {
         Err(p) => Loaded::Panic(p),
@@ -458,10 +483,13 @@ pub fn run(args: &Args) -> Report {
         match catch(|| a2lfile::load_from_string(&doc, None, false)) {
             Ok(Ok((mut f, log))) => {
                 let before = count(&f.write_to_string());
+                let request = host_text(&f.project.module[0], false);
                 if before != 3 * nhost {
                     rep.sample(format!("cleanup-all-hosts log: {}", log.iter().map(|e| e.to_string()).collect::<Vec<_>>().join(" | ")));
                 }
                 f.ifdata_cleanup();
+                // tie: the Lean model of the traversal (Hosts.cleanup) on the same flags
+                rep.tie(format!("ifcl {request}"), host_text(&f.project.module[0], true));
                 let w = f.write_to_string();
                 let after = count(&w);
                 let per_host_ok = w.matches("XCP 5").count() == nhost && !w.contains("\"no\"") && !w.contains("/begin q");
